@@ -55,7 +55,7 @@ Section Sentinel.
   (* dropping a never-allocated vector frees nothing *)
   Lemma sn_drop : exists s', drop_vec cfg v s = (Val tt, s') /\ heap s' = heap s /\ events s' = events s.
   Proof.
-    unfold drop_vec. rewrite (bind_val _ _ _ _ _ sn_handle). unfold try_finally, drop_handle. simpl.
+    unfold drop_vec, try_finally, drop_body. rewrite (bind_val _ _ _ _ _ sn_is_default). simpl.
     eexists. split; [reflexivity|]. split; reflexivity.
   Qed.
 
